@@ -46,12 +46,12 @@ func checkC20(c *Ctx) {
 		"(Y1) every access to the members slice on every path of the exported functions (entered without the lock) and of the watcher (entered with what NewPool holds at the go statement and at each of its returns) holds the Pool mutex, write mode for writes; accesses made by an entry point that is not handed a Pool, before it starts a goroutine, are private; " +
 		"(Y2) the watcher invokes the pool context's cancel only on paths that, since its last blocking wait, re-read len(members) and observed index >= len for an index that starts at 0 and advances by 1, or saw the Cancel channel closed / members nil / the set-once flag — so a member added while the pool is live is waited for; " +
 		"(Y3) every blocking operation the watcher performs is a select with a case on an element of the members slice and a case on the Cancel channel; every exit of the watcher has invoked cancel; cancel is invoked nowhere outside the watcher and Cancel; " +
-		"(Y4) every store to the members slice reachable from Add happens with the write lock held and after a non-blocking test, made in the same lock hold, that found neither the pool context done nor the pool cancelled (one select, several selects, Err(), a set-once flag, a counted loop over a literal/variadic list of channels left by its index test); every return of Add has either seen the pool ended or stored the current members grown by the offered context's Done(); " +
+		"(Y4) every store to the members slice reachable from Add happens with the write lock held and after a non-blocking test, made in the same lock hold, that found neither the pool context done nor the pool cancelled (one select, several selects, Err(), a set-once flag, a counted loop over a literal/variadic list of channels left by its index test); every return of Add has either seen the pool ended or stored the current members grown by the offered context's Done() — a member's own Done channel having fired is not such a signal; " +
 		"(Y5) every close of the Cancel channel reachable from Cancel happens under the write lock after observing, in the same hold, members != nil, the Cancel channel not yet closed or the set-once flag unset (or inside sync.Once.Do), and members is set to nil (and the flag, if one exists, set) before that hold ends; " +
-		"(Y6) NewPool's loop over the initial contexts (also in a package callee) is left only by its index test (index 0..len-1 step 1, range / three-clause / rotated form) and an iteration that does not append the context's Done channel to a slice flowing into the members field has observed that context done; " +
+		"(Y6) NewPool's loop over the initial contexts (also in a package callee) is left only by its index test (index 0..len-1 step 1, range / three-clause / rotated form) and an iteration that does not append the context's Done channel to a slice flowing into the members field has observed that context done; a collection by indexed stores (in-place filter) counts like append only if the position written is a counter that starts at 0 and is advanced exactly on the iterations that store, and the slice cut to that counter reaches the members field — storing at the input position while contexts are skipped, or a counter out of step with the stores, is reported; " +
 		"(Y7) every return of Cancel has stored nil to members or seen it nil (or the Cancel channel closed / the flag set), and the flag is only set in holds that drop the members; " +
 		"(Y8) while the pool is shared, every store to the members slice is the current members grown at the end (append, also through temporaries, helpers, full re-slices, slices.Clip/Grow/Clone) or Cancel's nil, and no element is overwritten, moved or cleared; strict sub-slices, filtered/rebuilt/fresh slices, slices.Delete & co., nil outside Cancel are reported; unknown producers are UNDECIDED — the watcher's positional index relies on it. " +
-		"A rule that fails while the flow had to over-approximate (unresolved function value, untraceable channel, table or enum beyond the bounds, recursion, frame depth) or meets a shape it cannot interpret (arithmetic over len(members), a predicate of another package over the pool's signals, a boolean field that is not set-once, members not collected by append) is UNDECIDED, not VIOLATION. " +
+		"A rule that fails while the flow had to over-approximate (unresolved function value, untraceable channel, table or enum beyond the bounds, recursion, frame depth) or meets a shape it cannot interpret (arithmetic over len(members), a predicate of another package over the pool's signals, a boolean field that is not set-once, members collected neither by append nor by counter-indexed stores) is UNDECIDED, not VIOLATION. " +
 		"NOT decided: the history-level claim 'never early / always eventually' over all cancellation orders and Add timings; that Size returns exactly len(members); that the channel waited for is the one at the current index; that the element appended in NewPool belongs to the context that was tested."
 	r.Assumptions = append(r.Assumptions,
 		"sync.RWMutex may be unlocked by a goroutine other than the locker (documented), which is what the NewPool hand-off relies on",
@@ -1343,6 +1343,11 @@ type c20LitLoop struct {
 	ia     *ssa.IndexAddr
 }
 
+func c20IsZero(v ssa.Value) bool {
+	c, ok := v.(*ssa.Const)
+	return ok && c.Value != nil && c.Int64() == 0
+}
+
 // c20IndexFromZero: at the loop test the value runs 0,1,2,…: phi{0,+1}, or the
 // range lowering t = phi{-1,t}+1.
 func c20IndexFromZero(v ssa.Value) bool {
@@ -1743,6 +1748,11 @@ func (a *c20) checkAdd() {
 				}
 				if c == c20Yes {
 					return bNC
+				}
+				if a.orig(x, cs.ChanV, a.isMemberElem) == c20Yes {
+					// a member's own Done channel: known, and positively not a signal that the POOL has ended
+					// (one member having ended says nothing about the others)
+					return 0
 				}
 				if a.oneLitElem(x, cs.ChanV) {
 					// one element of a fully known channel list, tested outside any loop: whatever it is,
@@ -2191,10 +2201,66 @@ func (a *c20) checkInitial() {
 	)
 	appends := map[*ssa.Call]bool{}
 	badEdge := false
+	// collection by indexed stores S[n] = done; n++ … S[:n] (an in-place filter) instead of append: the
+	// index written must be the store counter the kept length is taken from
+	const bST = 1 << 2                   // this iteration stored an element
+	counters := map[*ssa.Phi]ssa.Value{} // store counter -> the slice it indexes
+	posBadIdx, unknownIdx, counterMismatch, skips := token.NoPos, false, false, false
+	isCounter := func(v ssa.Value) *ssa.Phi {
+		phi, ok := v.(*ssa.Phi)
+		if !ok || phi.Block() != header || len(phi.Edges) != len(header.Preds) {
+			return nil
+		}
+		for k, ed := range phi.Edges {
+			if !inLoop[header.Preds[k]] {
+				if c, ok := ed.(*ssa.Const); !ok || c.Value == nil || c.Int64() != 0 {
+					return nil
+				}
+				continue
+			}
+			if ed == ssa.Value(phi) {
+				continue
+			}
+			bo, ok := ed.(*ssa.BinOp)
+			if !ok || bo.Op != token.ADD || bo.X != ssa.Value(phi) {
+				return nil
+			}
+			if c, ok := bo.Y.(*ssa.Const); !ok || c.Value == nil || c.Int64() != 1 {
+				return nil
+			}
+		}
+		return phi
+	}
 	f := &c20PathFlow{K: a.k}
 	f.Instr = func(x *c20Ctx, in ssa.Instruction, s c20State) c20State {
 		if in.Block() == header && in == header.Instrs[0] {
 			s = 0
+		}
+		if st, ok := in.(*ssa.Store); ok && inLoop[in.Block()] {
+			ia, ok := st.Addr.(*ssa.IndexAddr)
+			if !ok || !types.Identical(ia.X.Type(), a.ro.MemberT) {
+				return s
+			}
+			t := a.orig(x, st.Val, func(o ssa.Value) bool {
+				recv, ok := c20CtxMethodCall(o, "Done")
+				return ok && a.k.allOrigins(recv, isCtxElem) == c20Yes
+			})
+			if t == c20No {
+				return s
+			}
+			switch phi := isCounter(ia.Index); {
+			case phi != nil:
+				counters[phi] = ia.X
+			case ia.Index == idxV || c20IndexFromZero(ia.Index):
+				posBadIdx = instrPos(in) // written at the INPUT position
+			default:
+				if phi, ok := idxV.(*ssa.BinOp); ok && ia.Index == phi.X {
+					posBadIdx = instrPos(in)
+				} else {
+					unknownIdx = true
+				}
+			}
+			return s | bAPP | bST
 		}
 		call, ok := in.(*ssa.Call)
 		if !ok || builtinName(call) != "append" || !types.Identical(call.Type(), a.ro.MemberT) {
@@ -2244,9 +2310,63 @@ func (a *c20) checkInitial() {
 		if to == header && inLoop[from] && s&(bAPP|bEV) == 0 {
 			badEdge = true
 		}
+		if to == header && inLoop[from] && x.Fn() == loopFn {
+			if s&bST == 0 {
+				skips = true
+			}
+			for k, pr := range header.Preds {
+				if pr != from {
+					continue
+				}
+				for phi := range counters {
+					_, inc := phi.Edges[k].(*ssa.BinOp)
+					if inc != (s&bST != 0) {
+						counterMismatch = true
+					}
+				}
+			}
+		}
 	}
 	f.Run(a.newPool, c20Set{0: {}})
-	if len(appends) == 0 && why == "" {
+	if len(counters) > 0 {
+		f.Run(a.newPool, c20Set{0: {}}) // second pass: the counters are known from the first
+	}
+	indexed := len(counters) > 0 || posBadIdx.IsValid() || unknownIdx
+	if why == "" && posBadIdx.IsValid() && skips {
+		a.decide(false, f, "C20.Y6-initial", construct, posBadIdx, "", "the initial Done channels are stored at the position of their context in the argument list although some contexts are skipped: the members slice gets holes (nil channels the watcher blocks on forever) and, if it is cut to the number stored, live members beyond that length are dropped — the position written must be the count of members stored so far")
+		return
+	}
+	if why == "" && counterMismatch {
+		a.decide(false, f, "C20.Y6-initial", construct, header.Instrs[0].Pos(), "", "the counter the initial Done channels are stored at is not advanced exactly on the iterations that store one (a slot is left empty or overwritten)")
+		return
+	}
+	if why == "" && unknownIdx {
+		r.Undecide("C20.Y6-initial: the initial members are collected by indexed stores whose index is neither the store counter nor the loop index (shape not decided)")
+		return
+	}
+	if why == "" && len(counters) > 0 {
+		// the kept length is the store counter: S[:n] flows to the members field
+		kept := false
+		for phi, sl := range counters {
+			s1, _ := a.k.origins(sl)
+			allInstrs(loopFn, func(in ssa.Instruction) {
+				q, ok := in.(*ssa.Slice)
+				if !ok || q.High != ssa.Value(phi) || (q.Low != nil && !c20IsZero(q.Low)) {
+					return
+				}
+				s2, _ := a.k.origins(q.X)
+				same := len(s1) == 1 && len(s2) == 1 && (s1[0] == s2[0] || a.isMembersLoad(s1[0]) && a.isMembersLoad(s2[0]))
+				if same && a.k.flowsTo(q).Fields[a.ro.Members] {
+					kept = true
+				}
+			})
+		}
+		if !kept {
+			r.Undecide("C20.Y6-initial: the initial members are collected by indexed stores, but no re-slice of that slice to the store counter reaching the members field was found")
+			return
+		}
+	}
+	if len(appends) == 0 && !indexed && why == "" {
 		r.Undecide("C20.Y6-initial: no append of a context's Done channel to a slice of the members' type found in NewPool or its package callees; how the initial members are collected is not recognised")
 		return
 	}
@@ -2265,6 +2385,9 @@ func (a *c20) checkInitial() {
 			if len(fl.Escapes) > 0 {
 				escapes = true
 			}
+		}
+		if len(counters) > 0 {
+			reaches = true // established above through the re-slice
 		}
 		if !reaches {
 			if len(appends) == 0 || escapes {
